@@ -13,7 +13,13 @@
    [chk_C05_below]: what lies beneath an open modal frame stays in place.
    The second conjunct is REFUTED in general (finding F16, six sessions below, each reproduced event-for-event
    on the real implementation) and PROVED under three conditions decided on the trace (section 3), each of
-   which is needed. *)
+   which is needed.
+   setup() with commands of its own (sc_setup_cmds, section 6): the theorems of sections 1 and 3 that speak of the
+   T_SETUP / T_REFRESH clauses are stated for [plain_setup specs] (no setup() runs commands); the stack theorem
+   [C05_beneath_untouched] and the T_INPUT clause [C05_input_shield_partial] hold under the weaker
+   [setup_cmds_ok specs] (a setup() that runs commands never reports failure), and so do the shield acceptors
+   without their clauses for the RETURN of such a setup() and the refresh() of its screen ([relax_setup]).
+   Without [setup_cmds_ok] the strict form is false even under [no_f13] (session su1 of section 6). *)
 From Coq Require Import ZArith NArith List Bool.
 From RecordUpdate Require Import RecordUpdate.
 From SL Require Import PyInt LoopSem ScreenSem ScreenMon proofs.C05Proofs proofs.C05Hyp proofs.C05Input.
@@ -35,9 +41,10 @@ Proof. exact chk_C05_gen_split. Qed.
    PARTIAL with respect to the requested [chk_C05_partial]: the T_INPUT clause is false, see section 3. *)
 Theorem C05_modal_shield_partial :
   forall specs specl typed quit run_empty fuel acts,
+    plain_setup specs ->
     sok chk_C05_shield_partial typed
         (rev (trace (snd (app_run_all specs specl typed quit run_empty fuel acts)))) = true.
-Proof. intros. exact (proj1 (C05_shield_session specs specl typed quit run_empty fuel acts)). Qed.
+Proof. intros specs specl typed quit run_empty fuel acts Hplain. exact (proj1 (C05_shield_session specs Hplain specl typed quit run_empty fuel acts)). Qed.
 
 (* "returns to the caller only after that screen (or whatever replaced it) has been closed": when the
    trace shows no force_quit and no execute_new_loop entered while the loops had been told to stop
@@ -45,9 +52,10 @@ Proof. intros. exact (proj1 (C05_shield_session specs specl typed quit run_empty
    closed.  Without the hypothesis the statement is false: section 2. *)
 Theorem C05_returns_only_after_close_partial :
   forall specs specl typed quit run_empty fuel acts,
+    plain_setup specs ->
     let t := rev (trace (snd (app_run_all specs specl typed quit run_empty fuel acts))) in
     no_f13 t = true -> sok chk_C05_shield typed t = true.
-Proof. intros specs specl typed quit run_empty fuel acts. exact (proj1 (proj2 (C05_shield_session specs specl typed quit run_empty fuel acts))). Qed.
+Proof. intros specs specl typed quit run_empty fuel acts Hplain. exact (proj1 (proj2 (C05_shield_session specs Hplain specl typed quit run_empty fuel acts))). Qed.
 
 (* the hypothesis in the vocabulary of the event-loop monitors (Monitors.v): no EForceQuit event, and the
    world rebuilt from the trace records no level "opened while the loops were already told to stop" *)
@@ -58,10 +66,11 @@ Proof. exact no_f13_spec. Qed.
 (* consequently the monitors of ScreenMon.v accept a session trace iff its T_INPUT events are accepted *)
 Theorem C05_modulo_input :
   forall specs specl typed quit run_empty fuel acts,
+    plain_setup specs ->
     let t := rev (trace (snd (app_run_all specs specl typed quit run_empty fuel acts))) in
     sok chk_C05_partial typed t = sok chk_C05_input typed t /\
     (no_f13 t = true -> sok chk_C05 typed t = sok chk_C05_input typed t).
-Proof. exact C05_session_modulo_input. Qed.
+Proof. intros specs specl typed quit run_empty fuel acts Hplain. exact (C05_session_modulo_input specs Hplain specl typed quit run_empty fuel acts). Qed.
 
 (* ================================================================== 2. the strict form is false (F13) *)
 (* input() of a modal screen closes it and pushes another modal screen: the second push returns at once,
@@ -87,19 +96,21 @@ Proof. vm_compute. repeat split. Qed.
    Neither no_f13 nor any condition on force_quit is needed for this clause. *)
 Theorem C05_input_shield_partial :
   forall specs specl typed quit run_empty fuel acts,
+    setup_cmds_ok specs ->
     let t := rev (trace (snd (app_run_all specs specl typed quit run_empty fuel acts))) in
     no_stale_prompt t = true -> no_orphan_prompt t = true -> no_modal_during_prompt t = true ->
     sok chk_C05_input typed t = true.
-Proof. intros specs specl typed quit run_empty fuel acts. exact (proj2 (proj2 (proj2 (C05_input_session specs specl typed quit run_empty fuel acts)))). Qed.
+Proof. intros specs specl typed quit run_empty fuel acts Hcok. exact (proj2 (proj2 (proj2 (C05_input_session_cmds specs Hcok specl typed quit run_empty fuel acts)))). Qed.
 
 (* the whole acceptor of ScreenMon.v: chk_C05_partial under the three conditions, the strict chk_C05 under
    no_f13 in addition *)
 Theorem C05_full_partial :
   forall specs specl typed quit run_empty fuel acts,
+    plain_setup specs ->
     let t := rev (trace (snd (app_run_all specs specl typed quit run_empty fuel acts))) in
     no_stale_prompt t = true -> no_orphan_prompt t = true -> no_modal_during_prompt t = true ->
     sok chk_C05_partial typed t = true /\ (no_f13 t = true -> sok chk_C05 typed t = true).
-Proof. exact C05_full_session. Qed.
+Proof. intros specs specl typed quit run_empty fuel acts Hplain. exact (C05_full_session specs Hplain specl typed quit run_empty fuel acts). Qed.
 
 (* Without the conditions the clause is false (finding F16).  Six sessions; in each the stack discipline
    (chk_C04) is respected, the shield of setup/refresh/show holds, and input() is given to a screen whose
@@ -163,8 +174,9 @@ Proof. exact caller_resumes_eq. Qed.
    screen has closed itself its callback may go on closing the screens beneath it. *)
 Theorem C05_beneath_untouched :
   forall specs specl typed quit run_empty fuel acts,
+    setup_cmds_ok specs ->
     sok chk_C05_below typed (rev (trace (snd (app_run_all specs specl typed quit run_empty fuel acts)))) = true.
-Proof. intros. exact (proj2 (proj2 (C05_shield_session specs specl typed quit run_empty fuel acts))). Qed.
+Proof. intros specs specl typed quit run_empty fuel acts Hcok. exact (proj2 (proj2 (C05_shield_session_cmds specs Hcok specl typed quit run_empty fuel acts))). Qed.
 
 (* ... and no other event touches the stack, the entry being replaced, or a frame's current entry: the frames
    are the same list, or (T_MODAL_RETURN) the same list without the returning frame *)
@@ -201,6 +213,62 @@ Example C05_monitor_rejects :
   sok chk_C05_below [] C05Ex.bad_trace = true /\ sok chk_C05_below [] C05Ex.bad_below = false.
 Proof. vm_compute. repeat split. Qed.
 
+(* ================================================================== 6. setup() with commands of its own *)
+(* [setup_cmds_ok specs]: every screen whose setup() runs commands (sc_setup_cmds <> []) reports success every time.
+   It is weaker than [plain_setup] and decided on a table of screens by [setup_cmds_okb]. *)
+Theorem C05_setup_cmds_hypothesis :
+  (forall specs, plain_setup specs -> setup_cmds_ok specs) /\
+  (forall l, setup_cmds_okb l = true -> setup_cmds_ok (fun n => nth n l default_spec)).
+Proof. split; [exact plain_setup_cmds_ok|exact setup_cmds_okb_ok]. Qed.
+
+(* [relax_setup specs chk]: [chk] except that T_SETUP [id; scr; ..] (the return of setup()) and T_REFRESH [id; scr; ..]
+   are not examined when screen scr has a setup() with commands; it is implied by [chk], and is [chk] itself when no
+   setup() runs commands *)
+Theorem C05_relaxed_acceptor_meaning : forall specs chk,
+  (forall w e, relax_setup specs chk w e =
+     match e with
+     | EUser tag a _ => if ((tag =? T_SETUP)%nat || (tag =? T_REFRESH)%nat) && has_cmds (specs (nth0 a 1)) then true else chk w e
+     | _ => chk w e
+     end) /\
+  (forall w e, chk w e = true -> relax_setup specs chk w e = true) /\
+  (plain_setup specs -> forall w e, relax_setup specs chk w e = chk w e).
+Proof.
+  intros specs chk. split; [reflexivity|]. split; [intros w e; apply relax_setup_of|apply relax_setup_plain].
+Qed.
+
+(* every session whose setups with commands never fail: the entry of such a setup() (T_SETUP_BEGIN), every show_all(),
+   every setup()/refresh() of the other screens never concern an entry beneath an open modal frame, every return of a
+   modal push matches its frame, and (no_f13) finds it closed.  PARTIAL: that the entry is not beneath an open modal
+   frame when a setup() with commands RETURNS and when its screen is refreshed is not proved (the commands may have
+   changed the stack; the entry is then not the top entry any more). *)
+Theorem C05_modal_shield_setup_cmds_partial :
+  forall specs specl typed quit run_empty fuel acts,
+    setup_cmds_ok specs ->
+    let t := rev (trace (snd (app_run_all specs specl typed quit run_empty fuel acts))) in
+    sok (relax_setup specs chk_C05_shield_partial) typed t = true /\
+    (no_f13 t = true -> sok (relax_setup specs chk_C05_shield) typed t = true).
+Proof.
+  intros specs specl typed quit run_empty fuel acts Hcok t.
+  destruct (C05_shield_session_cmds specs Hcok specl typed quit run_empty fuel acts) as (H1 & H2 & _). split; assumption.
+Qed.
+
+(* without [setup_cmds_ok] the strict form is false although no_f13 holds: setup() of a modal screen pushes a screen
+   and reports failure; the scheduler discards the pushed screen and stops the modal screen's loop: the modal push
+   returns while its screen is still on the stack (su1).  With setups that succeed the full strict monitor accepts (su2:
+   setup() opens a modal dialog, which opens another one, then pushes a screen) *)
+Example C05_failing_setup_with_commands_refuted :
+  fst C05InEx.su1 = [ONormal; ONormal] /\ setup_cmds_okb C05InEx.su1_specs = false /\ no_f13 (snd C05InEx.su1) = true /\
+  sok chk_C05_shield C05InEx.su1_typed (snd C05InEx.su1) = false /\
+  sok (relax_setup (C05InEx.fspecs C05InEx.su1_specs) chk_C05_shield) C05InEx.su1_typed (snd C05InEx.su1) = false /\
+  sok chk_C05_shield_partial C05InEx.su1_typed (snd C05InEx.su1) = true /\
+  sok chk_C05_below C05InEx.su1_typed (snd C05InEx.su1) = true.
+Proof. vm_compute. repeat split. Qed.
+Example C05_example_setup_with_commands :
+  fst C05InEx.su2 = [ONormal; ONormal] /\ setup_cmds_okb C05InEx.su2_specs = true /\ no_f13 (snd C05InEx.su2) = true /\
+  sok chk_C05 C05InEx.su2_typed (snd C05InEx.su2) = true /\ sok chk_C05_below C05InEx.su2_typed (snd C05InEx.su2) = true /\
+  C05Ex.count_tag T_SETUP_BEGIN (snd C05InEx.su2) = 1 /\ C05Ex.count_tag T_MODAL_RETURN (snd C05InEx.su2) = 2.
+Proof. vm_compute. repeat split. Qed.
+
 Print Assumptions C05_acceptor_split.
 Print Assumptions C05_modal_shield_partial.
 Print Assumptions C05_returns_only_after_close_partial.
@@ -211,3 +279,6 @@ Print Assumptions C05_full_partial.
 Print Assumptions C05_caller_resumes.
 Print Assumptions C05_beneath_untouched.
 Print Assumptions C05_only_stack_primitives_move.
+Print Assumptions C05_setup_cmds_hypothesis.
+Print Assumptions C05_relaxed_acceptor_meaning.
+Print Assumptions C05_modal_shield_setup_cmds_partial.
